@@ -210,7 +210,7 @@ func (w *listBox) renderVertical(width, height int) *term.Buffer {
 		// separator between adjacent entries.
 
 		if len(allLines)+len(lines) > height {
-			lines = lines[:len(allLines)+len(lines)-height]
+			lines = lines[:height-len(allLines)]
 			hasCropped = true
 		}
 		allLines = append(allLines, lines...)
